@@ -3,6 +3,7 @@ import Rivaas.Model.BindAsIs
 import Rivaas.Spec.Bind
 import Rivaas.Lemmas.BindVal
 import Rivaas.Lemmas.BindFlatten
+import Rivaas.Lemmas.BindConv
 /-
 C04 — Request binding is faithful, total and bounded. Property theorems.
 -/
@@ -61,125 +62,6 @@ theorem flatten_asis_witness :
     exact absurd h3 (by decide)
 
 /-! ## 2. Conversion never truncates, wraps or overflows to infinity -/
-
-/-- the shipped float facts are consistent: a finite value whose float32 conversion is infinite
-    lies above MaxFloat32 (checked by the driver on every table entry) -/
-def FloatSane (P : Params) : Prop :=
-  ∀ s b64 b32 above inf32, (P s).f = some (b64, b32, above, inf32) → inf32 = true → above = true
-
-/-- **K04b, repaired code.** An integer conversion that succeeds yields exactly the parsed number,
-    and that number fits the field's width. -/
-theorem convert_no_truncation_int (P : Params) (cfg : Cfg) (w : Nat) (s : Bytes) (v : Val)
-    (h : convPrim P cfg (.int w) s = some v) :
-    ∃ i, (if cfg.baseAuto then (P s).i0 else (P s).i10) = some i ∧ v = .int i ∧ Spec.fitsInt w i := by
-  unfold convPrim at h
-  simp only at h
-  split at h
-  · rename_i i hi
-    split at h
-    · rename_i hr
-      refine ⟨i, hi, by simpa using h.symm, ?_⟩
-      simpa [inRangeInt, Spec.fitsInt] using hr
-    · simp at h
-  · simp at h
-
-theorem convert_no_truncation_uint (P : Params) (cfg : Cfg) (w : Nat) (s : Bytes) (v : Val)
-    (h : convPrim P cfg (.uint w) s = some v) :
-    ∃ n, (if cfg.baseAuto then (P s).u0 else (P s).u10) = some n ∧ v = .uint n ∧ Spec.fitsUint w n := by
-  unfold convPrim at h
-  simp only at h
-  split at h
-  · rename_i n hn
-    split at h
-    · rename_i hr
-      refine ⟨n, hn, by simpa using h.symm, ?_⟩
-      simpa [inRangeUint, Spec.fitsUint] using hr
-    · simp at h
-  · simp at h
-
-/-- a float32 conversion that succeeds is the float32 rounding of a value within ±MaxFloat32 — in
-    particular a finite value never becomes an infinity -/
-theorem convert_no_infinity (P : Params) (hP : FloatSane P) (cfg : Cfg) (s : Bytes) (v : Val)
-    (h : convPrim P cfg .f32 s = some v) :
-    ∃ b64 b32, (P s).f = some (b64, b32, false, false) ∧ v = .flt b32 := by
-  unfold convPrim at h
-  simp only at h
-  split at h
-  · rename_i b64 b32 above inf32 hf
-    split at h
-    · simp at h
-    · rename_i ha
-      have ha' : above = false := by simpa using ha
-      have hi : inf32 = false := by
-        cases hinf : inf32 with
-        | false => rfl
-        | true => have := hP s _ _ _ _ hf hinf; simp [ha'] at this
-      exact ⟨b64, b32, by rw [hf, ha', hi], by simpa using h.symm⟩
-  · simp at h
-
-/-- the model's conversion meets the oracle's reading of "converted value" for every leaf kind:
-    success yields the denoted value, refusal happens only where the oracle admits an error -/
-theorem conv_meets_denote (P : Params) (hP : FloatSane P) (cfg : Cfg) (p : Prim) (s : Bytes) :
-    (∀ v, convPrim P cfg p s = some v → (Spec.denote P cfg p s).val = some v) ∧
-    (convPrim P cfg p s = none → (Spec.denote P cfg p s).refusable = true) := by
-  cases p with
-  | str => simp [convPrim, Spec.denote, Spec.Den.of]
-  | int w =>
-    simp only [convPrim, Spec.denote, Spec.Den.of]
-    cases (if cfg.baseAuto then (P s).i0 else (P s).i10) with
-    | none => simp
-    | some i =>
-      have hd : inRangeInt w i = decide (Spec.fitsInt w i) := by
-        by_cases h1 : -(2 ^ (bitsOf w - 1) : Int) ≤ i <;> by_cases h2 : i < (2 ^ (bitsOf w - 1) : Int) <;>
-          simp [inRangeInt, Spec.fitsInt, h1, h2]
-      by_cases hr : Spec.fitsInt w i <;> simp [hr, hd]
-  | uint w =>
-    simp only [convPrim, Spec.denote, Spec.Den.of]
-    cases (if cfg.baseAuto then (P s).u0 else (P s).u10) with
-    | none => simp
-    | some n =>
-      by_cases hr : Spec.fitsUint w n
-      · have : inRangeUint w n = true := by simpa [inRangeUint, Spec.fitsUint] using hr
-        simp [hr, this]
-      · have : inRangeUint w n = false := by simpa [inRangeUint, Spec.fitsUint] using hr
-        simp [hr, this]
-  | f64 =>
-    simp only [convPrim, Spec.denote, Spec.Den.of]
-    cases hf : (P s).f with
-    | none => simp
-    | some x => obtain ⟨a, b, c, d⟩ := x; simp
-  | f32 =>
-    simp only [convPrim, Spec.denote, Spec.Den.of]
-    cases hf : (P s).f with
-    | none => simp
-    | some x =>
-      obtain ⟨a, b, above, inf32⟩ := x
-      cases ha : above <;> cases hi : inf32
-      · simp
-      · have := hP s a b above inf32 hf hi; simp [ha] at this
-      · simp
-      · simp
-  | bool =>
-    simp only [convPrim, Spec.denote, Spec.Den.of, parseBool, Spec.boolWord, trueWords, falseWords]
-    by_cases h1 : (trimSpace s).map lowerB ∈ [B "true", B "1", B "yes", B "on", B "t", B "y"]
-    · have : ([B "true", B "1", B "yes", B "on", B "t", B "y"].contains ((trimSpace s).map lowerB)) = true := by
-        simpa using h1
-      simp [h1, this]
-    · have h1' : ([B "true", B "1", B "yes", B "on", B "t", B "y"].contains ((trimSpace s).map lowerB)) = false := by
-        simpa using h1
-      by_cases h2 : (trimSpace s).map lowerB ∈ [B "false", B "0", B "no", B "off", B "f", B "n", B ""]
-      · have : ([B "false", B "0", B "no", B "off", B "f", B "n", B ""].contains ((trimSpace s).map lowerB)) = true := by
-          simpa using h2
-        simp [h1, h2]
-      · have : ([B "false", B "0", B "no", B "off", B "f", B "n", B ""].contains ((trimSpace s).map lowerB)) = false := by
-          simpa using h2
-        simp [h1, h2]
-  | time =>
-    simp only [convPrim, Spec.denote, Spec.Den.of]
-    cases (P s).t <;> simp
-  | dur =>
-    simp only [convPrim, Spec.denote, Spec.Den.of]
-    cases (P s).d <;> simp
 
 /-- the string `300` with what strconv says about it -/
 def P300 : Params := fun s => if s = B "300" then { i10 := some 300, u10 := some 300 } else {}
